@@ -1,4 +1,4 @@
-import Holpy.C18.ProofsSimp
+import Holpy.C18.ProofsSimpB
 namespace Holpy.C18
 open Tm
 
